@@ -280,7 +280,7 @@ def main(argv=None):
             "rule": "one evaluation = one feasible execution path of the real code (an equivalence class of inputs "
                     "fixed by the branch decisions taken on symbolic values); non-trivial = the path constraint "
                     "contains at least one decision on an input beyond its declared range",
-            "exhaustive": bool(tot["complete"] and not tot["unknown"] and not harness_errors),
+            "exhaustive": bool(tot["complete"] and not tot["unknown"] and not harness_errors and not skipped),
             "paths_aborted_by_assume": tot["aborts"], "paths_concretised": tot["unsupported"],
             "paths_cut_by_limit": tot["cut"], "paths_raising": tot["exc_paths"],
             "solver": "z3 %s" % _z3_version(), "solver_queries": tot["solver_queries"],
